@@ -36,6 +36,7 @@ type CrashSpec struct {
 		Async int `json:"async,omitempty"`
 	} `json:"kill"`
 	Kind  string          `json:"kind"` // store | dsm | ns | job ...
+	Prop  string          `json:"prop,omitempty"` // property the violations are reported under when an inspector serves several
 	Extra json.RawMessage `json:"extra,omitempty"`
 }
 
